@@ -40,6 +40,20 @@ def is_int(s):
         return False
 
 
+def float_to_text(value: float, bits: int) -> str:
+    """Text form of a float constant. NaN's keep their sign and payload."""
+    if math.isnan(value):
+        if bits == 32:
+            raw = struct.unpack("<I", struct.pack("<f", value))[0]
+            sign, payload, quiet = raw >> 31, raw & 0x7FFFFF, 0x400000
+        else:
+            raw = struct.unpack("<Q", struct.pack("<d", value))[0]
+            sign, payload, quiet = raw >> 63, raw & 0xFFFFFFFFFFFFF, 1 << 51
+        text = "nan" if payload == quiet else f"nan:0x{payload:x}"
+        return "-" + text if sign else text
+    return str(value)
+
+
 def make_int(s, bits=None):
     """Try to make an integer"""
     if isinstance(s, int):
@@ -62,15 +76,27 @@ def make_int(s, bits=None):
     return v
 
 
-def make_float(s):
-    """Try to make an integer"""
+def make_float(s, bits=64):
+    """Try to make a float.
+
+    bits is the width of the wasm type; a 32 bit value is held as the
+    python float (double) with the same value, for NaN's this means
+    that the payload sits in the upper bits of the double's payload.
+    """
     if isinstance(s, float):
         return s
     elif isinstance(s, int):
         return float(s)
     elif isinstance(s, str):
         if hex_nan_prog.match(s):
-            return math.nan
+            # nan:0x<payload>, keep sign and payload
+            payload = int(s.split(":", 1)[1].replace("_", ""), 16)
+            if bits == 32:
+                payload <<= 29
+            raw = 0x7FF0000000000000 | (payload & 0xFFFFFFFFFFFFF)
+            if s.startswith("-"):
+                raw |= 1 << 63
+            return struct.unpack("<d", struct.pack("<Q", raw))[0]
         elif hex_float_prog.match(s):
             return float.fromhex(s.replace("_", ""))
         else:
